@@ -529,3 +529,63 @@ pub fn check_format(case: &str) -> Result<(), String> {
 // control has left the group - the documented "disabled on the cut and all its ancestors" - where the textbook search would
 // still retry them; answers are the same, the output of retried goals is not.  Recorded in DESIGN.md 8.26, not claimed.)
 pub fn enum_prog_output(seed: u64) -> Vec<String> { prog_cases(seed + 3000, "output", false, 2000, "print(") }
+
+// ---- C11: answers do not depend on how program variables are named (bounded, metamorphic) -----------------------------------
+// A random program and the same program with the variables of every rule renamed consistently (a fresh bijection per rule, drawn
+// from a pool that contains the query's own variable names, so that rules reuse them and each other's names): same answers, same
+// order, same output.  case = program, renamed program, query.
+fn rename_rule(r: &mut Rng, rule: &str) -> String {
+    let pool = ["$Q", "$R", "$X", "$X2", "$A", "$Same", "$V1", "$W"];
+    let olds = ["$X", "$Y", "$Z", "$W"];
+    // a random injective map olds -> pool
+    let mut picks: Vec<&str> = pool.to_vec();
+    let mut map = vec![];
+    for o in olds { let k = r.below(picks.len()); map.push((o, picks.remove(k))); }
+    // replace whole variable tokens only
+    let cs: Vec<char> = rule.chars().collect();
+    let mut out = String::new();
+    let mut i = 0;
+    while i < cs.len() {
+        if cs[i] == '$' {
+            let mut j = i + 1;
+            while j < cs.len() && (cs[j].is_alphanumeric() || cs[j] == '_') { j += 1; }
+            let tok: String = cs[i..j].iter().collect();
+            match map.iter().find(|(o, _)| *o == tok) { Some((_, n)) => out.push_str(n), None => out.push_str(&tok) }
+            i = j;
+        } else { out.push(cs[i]); i += 1; }
+    }
+    out
+}
+pub fn enum_rename_prog(seed: u64) -> Vec<String> {
+    let mut r = Rng((seed + 6000).wrapping_mul(0x9E3779B97F4A7C15) ^ 0x5DEECE66D | 1);
+    let mut out = vec![];
+    for _ in 0..1500 {
+        let (rules, q) = rand_program(&mut r, true);
+        let renamed: Vec<String> = rules.iter().map(|x| rename_rule(&mut r, x)).collect();
+        out.push(format!("{}\u{1}{}\u{1}{}", rules.join("\u{2}"), renamed.join("\u{2}"), q));
+    }
+    out
+}
+pub fn check_rename_prog(case: &str) -> Result<(), String> {
+    let parts: Vec<&str> = case.split('\u{1}').collect();
+    if parts.len() != 3 { return Err("bad case".into()); }
+    let load = |text: &str| -> Option<KnowledgeBase> {
+        let mut kb = KnowledgeBase::new();
+        for r in text.split('\u{2}') { match parse_rule(r) { Ok(rule) => add_rules(&mut kb, vec![rule]), Err(_) => return None } }
+        Some(kb)
+    };
+    let (kb1, kb2) = match (load(parts[0]), load(parts[1])) { (Some(a), Some(b)) => (a, b), _ => { crate::skip(); return Ok(()); } };
+    // the reference interpreter first: skips programs with cyclic bindings or too many steps
+    let query = parse_query(parts[2]).map_err(|e| format!("setup: {}", e))?;
+    let cap = Capture::start("ref11");
+    let ok = crate::o_ref::reference_answers(&kb1, &query, 61);
+    let _ = cap.end();
+    if ok.is_none() { crate::skip(); return Ok(()); }
+    let (a1, e1, o1, _, _) = engine_run(&kb1, parts[2], 70, 0)?;
+    let (a2, e2, o2, _, _) = engine_run(&kb2, parts[2], 70, 0)?;
+    if !e1 || !e2 { crate::skip(); return Ok(()); }
+    let n = |v: &Vec<String>| -> Vec<String> { v.iter().map(|s| crate::o_ref::normalise(s)).collect() };
+    if n(&a1) != n(&a2) { return Err(format!("`{}`: answers {:?} with the rules as written, {:?} with their variables renamed; program: {} / renamed: {}", parts[2], a1, a2, parts[0].replace('\u{2}', " "), parts[1].replace('\u{2}', " "))); }
+    if crate::o_ref::normalise(&o1) != crate::o_ref::normalise(&o2) { return Err(format!("`{}`: output {:?} with the rules as written, {:?} with their variables renamed; program: {}", parts[2], o1, o2, parts[0].replace('\u{2}', " "))); }
+    Ok(())
+}
